@@ -243,8 +243,38 @@ func main() {
 		os.Exit(cmdCheck(os.Args[2:]))
 	case "replay":
 		os.Exit(cmdReplay(os.Args[2:]))
+	case "selftest":
+		os.Exit(cmdSelftest())
 	default:
 		fmt.Fprintln(os.Stderr, "unknown command "+os.Args[1])
 		os.Exit(2)
 	}
+}
+
+// selftest: solver plumbing and term semantics (evaluator vs solver) on a fixed set of identities.
+func cmdSelftest() int {
+	ts := NewTermStore()
+	for _, kind := range []string{"z3"} {
+		s, err := NewSolver(kind, 10000)
+		if err != nil {
+			fmt.Println("selftest: cannot start", kind, err)
+			return 2
+		}
+		x, y := ts.Var("x", 64), ts.Var("y", 64)
+		// x+y == y+x is valid; x-y == y-x is not
+		r1, _, _ := s.Check([]*Term{ts.Ne(ts.Bin(OpAdd, x, y), ts.Bin(OpAdd, y, x))}, nil)
+		r2, m, _ := s.Check([]*Term{ts.mk(OpNot, 0, 0, "", ts.mk(OpEq, 0, 0, "", ts.mk(OpSub, 64, 0, "", x, y), ts.mk(OpSub, 64, 0, "", y, x)))}, []*Term{x, y})
+		s.Close()
+		if r1 != Unsat || r2 != Sat {
+			fmt.Println("selftest: unexpected verdicts", r1, r2)
+			return 2
+		}
+		ev := NewEvaluator(m)
+		if ev.Eval(ts.Bin(OpSub, x, y)) == ev.Eval(ts.Bin(OpSub, y, x)) {
+			fmt.Println("selftest: model does not evaluate as the solver said")
+			return 2
+		}
+	}
+	fmt.Println("selftest ok")
+	return 0
 }
